@@ -14,6 +14,15 @@ PROPS = {
  "C04": ("exploration", "For every rejected input of every generated conflict-free grammar the reported error lexeme is compared with the first non-viable lexeme computed by an Earley viable-prefix oracle, with recovery off (exactly one error, no value) and with CPCT+ on (first error). Grammars and inputs are sampled; merged-state-heavy grammars included on purpose.",
          "Trusted: harness Earley recogniser (viable prefixes on the abstract grammar); synthetic lexer span -> lexeme index bijection.",
          "runtime monitoring: reference-model monitor (Earley viable-prefix oracle) over generated erroneous inputs", "DESIGN.md §4 C04"),
+ "C05": ("exploration", "Reference-model monitor: every recovering parse is replayed on an independent LR driver; every reported repair sequence of every error is replayed from the error configuration and must then parse >= 3 further lexemes or accept; the first sequence is applied (inserted lexemes zero-length, faulty, at the next real lexeme) and the returned tree must equal the model's tree node for node; every later error must sit where the model errs. Sampled grammars x inputs x cost tables.",
+         "Trusted: the independent LR driver (reads the table only through action()/goto()), the synthetic lexer. Recovery runs under a logical step budget (lrpar hook). One known finding (conflict-resolved tables) matched by a mechanism predicate.",
+         "runtime monitoring: replay reference model over recorded parse results (errors, repair sequences, tree)", "DESIGN.md §4 C05"),
+ "C06": ("exploration", "Differential against an exhaustive reference search over explicit Insert/Delete/Shift sequences from the real error configuration (bounded: <= 6 tokens, <= 14 lexemes, reported cost <= 6 unit edits, 300k nodes): equal cost, no cheaper valid repair, reported set == minimum-cost best-reach set, plus the ordering clauses checked directly on the reported list. Beyond the bounds or when the step budget ran out the error is counted inconclusive.",
+         "Trusted: the reference search and plain-replay validity (rec.rs). Known finding on conflict-resolved tables matched by mechanism predicate.",
+         "runtime monitoring: differential reference-model monitor (exhaustive bounded repair search) + direct checks on the reported list", "DESIGN.md §4 C06"),
+ "C07": ("exploration", "Offline checker over the recorded result of each recovering parse (error positions strictly increasing and >= 3 lexemes apart, count <= n+1, repairs present on all but the last error, value <=> all repaired, silent acceptance => sentence) with the production 500 ms budget and with logical step budgets {50, 500, 5000}; 'always returns' through the per-case watchdog with isolated confirmation; panics are violations.",
+         "Trusted: the checker; Earley for silent acceptance. Grammars with derivation cycles and tables with endless epsilon-reduction loops are excluded (counted). Known finding on conflict-resolved tables matched by mechanism predicate.",
+         "runtime monitoring: trace checker over recorded parse outcomes under wall-clock and logical budgets; watchdog for termination", "DESIGN.md §4 C07"),
  "C16": ("exploration", "Every state x token x rule of every generated table: state_actions/state_shifts/core_reduces/reduce_only_state/goto vs action() and the graph's edges, reachability of all states, and every closed state vs a reference LR(1) closure of its core. Exhaustive over cells per generated grammar; grammars are sampled.",
          "Trusted: harness FIRST/nullable/closure.",
          "runtime monitoring: invariant checks on the live state graph and table at the quiescent point after construction", "DESIGN.md §4 C16"),
